@@ -244,7 +244,7 @@ def run_libfuzzer_stage(prop, stage, tier, env, work, merged, known_sigs, handle
     for i in range(nproc):
         cdir = os.path.join(work, "corpus-%d" % i)
         os.makedirs(cdir, exist_ok=True)
-        sdir = os.path.join(VERIF, "corpus", prop, "seed")
+        sdir = os.path.join(VERIF, "corpus", stage.get("seed_prop", prop), "seed")
         if i % 2 == 0 and os.path.isdir(sdir):  # every second worker starts from the committed seed corpus, the others from nothing
             for fn in os.listdir(sdir):
                 shutil.copy(os.path.join(sdir, fn), cdir)
